@@ -131,6 +131,15 @@ extern uint64_t xv_rmw_old; extern _Bool xv_cas_ok;
 
 #define A_FENCE(o) do { xv_clock++; XV_ON_FENCE(o); } while (0)
 
+/* std::memcmp (built-in lowering rule): byte-wise comparison; the loop is unwound by the run's global bound (its unwinding assertion makes a bound that is too small an error, never a pass) */
+static inline int xv_memcmp(const void* a, const void* b, size_t n) {
+  const unsigned char* x = (const unsigned char*)a; const unsigned char* y = (const unsigned char*)b;
+  for (size_t i = 0; i < n; i++) if (x[i] != y[i]) return x[i] < y[i] ? -1 : 1;
+  return 0;
+}
+#ifndef XV_MEMCMP
+#define XV_MEMCMP(a, b, n) xv_memcmp((const void*)(a), (const void*)(b), (n))
+#endif
 /* std::swap of two word-modelled lvalues (built-in lowering rule) */
 #define XV_STD_SWAP(a, b) do { __typeof__(a) xv_sw = (a); (a) = (b); (b) = xv_sw; } while (0)
 #endif
